@@ -164,6 +164,26 @@ func runFLAGS(c *Ctx) {
 				if !dirtyCleared && paramIsZeroLocal(c, fn, base, 0) {
 					dirtyCleared = true
 				}
+				// the decoder declares the node itself (`var node mastNode` in decodeNode, returned as &node): the same
+				// zero-initialised local, without a caller in between
+				// (only when the flag is set after everything that fills the variable: no live call that is handed the
+				// variable can follow the store — a decoder that runs afterwards may replace the whole struct)
+				if al, isAl := ir.ResolveCell(base).(*ssa.Alloc); !dirtyCleared && isAl && al.Parent() == fn && zeroLocalNeverDirty(al) {
+					filledBefore := true
+					for _, cj := range CallsOf(fn) {
+						if ir.DeadByConst(cj.Block()) || !ir.InstrReaches(st, cj) {
+							continue
+						}
+						for _, a := range cj.Common().Args {
+							if isNodePtr(a.Type()) && sameBase(a, al) {
+								filledBefore = false
+							}
+						}
+					}
+					if filledBefore {
+						dirtyCleared = true
+					}
+				}
 				switch {
 				case !dirtyCleared:
 					c.Violation(fn, pos, "shared=true on a node that may still be dirty",
@@ -309,6 +329,68 @@ func (s *sharedSummary) setsShared(fn *ssa.Function, k int) bool {
 	return ok
 }
 
+// returnsShared: does fn store shared=true on the node it returns as result k, on every successful return (a decoder
+// that builds the node itself: `node, err := m.decodeNode(nodeBytes, l)`)?
+func (s *sharedSummary) returnsShared(fn *ssa.Function, k int) bool {
+	key := fmt.Sprintf("%s#ret%d", ir.FuncName(fn), k)
+	switch s.memo[key] {
+	case 2:
+		return true
+	case 1, 3:
+		return false
+	}
+	s.memo[key] = 1
+	ok := fn.Blocks != nil && k < fn.Signature.Results().Len() && isNodePtr(fn.Signature.Results().At(k).Type())
+	ei := ir.ErrorResultIndex(fn.Signature)
+	n := 0
+	for _, r := range ir.Returns(fn) {
+		if !ok {
+			break
+		}
+		if ei >= 0 && !ir.IsNilConst(r.Results[ei]) {
+			op := r.Results[ei]
+			if call, isCall := op.(*ssa.Call); isCall {
+				if sc := ir.Callee(call.Call); sc != nil && sc.Pkg != nil && (sc.Pkg.Pkg.Path() == "fmt" || sc.Pkg.Pkg.Path() == "errors") {
+					continue // constructed error: error path
+				}
+			}
+			if nilFactOn(r.Block(), op, false) {
+				continue // `if err != nil { return nil, err }`: error path
+			}
+			// some other possibly-nil error value: treat as a successful return
+		}
+		n++
+		v := ir.Strip(r.Results[k])
+		if !ir.MustPass(r, s.marks(v)) && !s.producedShared(v) {
+			ok = false
+		}
+	}
+	if n == 0 {
+		ok = false
+	}
+	if ok {
+		s.memo[key] = 2
+	} else {
+		s.memo[key] = 3
+	}
+	return ok
+}
+
+// producedShared: v is the node result of a call of a repository function that flags the node it returns.
+func (s *sharedSummary) producedShared(v ssa.Value) bool {
+	v = ir.Strip(ir.ResolveCell(v))
+	k := 0
+	if ex, ok := v.(*ssa.Extract); ok {
+		k, v = ex.Index, ex.Tuple
+	}
+	call, ok := v.(*ssa.Call)
+	if !ok {
+		return false
+	}
+	h := ir.Callee(call.Call)
+	return h != nil && h.Blocks != nil && isOwn(s.c.P, h) && s.returnsShared(h, k)
+}
+
 // marks returns a predicate: instruction stores shared=true on node value x
 // (or calls a function that does so on every successful return).
 func (s *sharedSummary) marks(x ssa.Value) func(ssa.Instruction) bool {
@@ -394,11 +476,11 @@ func runSHAREDPUB(c *Ctx) {
 					return false
 				}
 				arg := ir.Strip(call.Call.Args[idx])
-				return ir.MustPass(site, S.marks(arg)) || atCallers(site.Parent(), site, arg, d+1)
+				return ir.MustPass(site, S.marks(arg)) || S.producedShared(arg) || atCallers(site.Parent(), site, arg, d+1)
 			})
 			return held
 		}
-		if ir.MustPass(where, S.marks(x)) || (where == at && atCallers(fn, at, x, 0)) {
+		if ir.MustPass(where, S.marks(x)) || S.producedShared(x) || (where == at && atCallers(fn, at, x, 0)) {
 			c.OK(pos, what, "shared=true is stored on the node on every path before it is published", false)
 		} else {
 			c.Violation(fn, pos, "node published without shared=true",
@@ -1085,14 +1167,8 @@ func paramIsZeroLocal(c *Ctx, fn *ssa.Function, base ssa.Value, depth int) bool 
 		switch x := ir.ResolveCell(a).(type) {
 		case *ssa.Alloc:
 			// no dirty=true store on this local
-			for _, b := range x.Parent().Blocks {
-				for _, ins := range b.Instrs {
-					if bb, f, s, ok := flagStore(ins); ok && f == "dirty" && sameBase(bb, x) {
-						if v, isC := ir.ConstBool(s.Val); !isC || v {
-							return false
-						}
-					}
-				}
+			if !zeroLocalNeverDirty(x) {
+				return false
 			}
 		case *ssa.Parameter:
 			if !paramIsZeroLocal(c, cs.Parent(), x, depth+1) {
@@ -1100,6 +1176,24 @@ func paramIsZeroLocal(c *Ctx, fn *ssa.Function, base ssa.Value, depth int) bool 
 			}
 		default:
 			return false
+		}
+	}
+	return true
+}
+
+// zeroLocalNeverDirty: x is a local mastNode variable (zero-initialised by its declaration) on which its function
+// never stores a dirty flag other than the constant false.
+func zeroLocalNeverDirty(x *ssa.Alloc) bool {
+	if pt, ok := x.Type().Underlying().(*types.Pointer); !ok || !ir.IsNamed(pt.Elem(), "mastNode") {
+		return false
+	}
+	for _, b := range x.Parent().Blocks {
+		for _, ins := range b.Instrs {
+			if bb, f, s, ok := flagStore(ins); ok && f == "dirty" && sameBase(bb, x) {
+				if v, isC := ir.ConstBool(s.Val); !isC || v {
+					return false
+				}
+			}
 		}
 	}
 	return true
